@@ -27,6 +27,19 @@ CLAIMED["C01"] = dict(
     note="Trusted: TLC, the TLA+ SM3 (pinned by the standard's examples), replayer/recorder plumbing (binding guards in both directions each run). Bounded: messages <= ~1 KiB.",
     technique="TLA+ executable specification + TLC history exploration + two-way trace conformance (replay and trace validation)")
 
+CLAIMED["C02"] = dict(
+    category="model_checking",
+    text="TLC enumerates key lengths 0..40, the standard's example, all single-bit and byte-structured keys and blocks, seeded random samples and ECB batches of 1..40 distinct blocks; expected bytes come from the TLA+ transcription of GB/T 32907 (S-box pinned to its algebraic form, Annex A example asserted), Dec(Enc(b))=b is checked on the definition, and every case is replayed through Block.Encrypt/Decrypt and ECB in 7 CPU-dispatch configurations x 3 block wrappers (native, block-only, batched) with guard-paged buffers in place and disjoint.",
+    design_ref="DESIGN.md section 4, C02",
+    note="Trusted: TLC, TLA+ SM4 (KAT-pinned), replayer plumbing. The 2^256 input space is sampled; structured classes are exhaustive.",
+    technique="TLA+ executable specification + TLC enumeration + spec-to-code trace replay per dispatch configuration")
+CLAIMED["C03"] = dict(
+    category="model_checking",
+    text="The mode object is a TLA+ state machine whose Call(n) reply is the slice of the one-shot textbook output (Modes.tla: ECB, CBC, CFB, OFB, CTR, BC, OFBNLF, XTS IEEE/GB with stealing, HCTR over SM4 and a toy cipher; round trip checked as an invariant). TLC explores every scenario (mode, direction, length, counter-carry class) and every admissible partition into <=3 calls; every transition is replayed with PROT_NONE guard pages around src/dst in 7 CPU configurations x 3 wrappers (fused asm, generic composition, batched).",
+    design_ref="DESIGN.md section 4, C03",
+    note="Trusted: TLC, TLA+ Modes/SM4/GF2 (pinned by GB/T 17964 B.7 and XTS-SM4 vectors), replayer plumbing, guard pages as the only observer of out-of-slice access. Known finding D4 (HCTR partial block) classified by a dedicated alternative expectation.",
+    technique="TLA+ executable specification + TLC exploration of call partitions + spec-to-code trace replay with guard pages")
+
 NOT_BUILT = "not built yet (in progress; see DESIGN.md section 9 build order)"
 NA = {}
 
